@@ -180,24 +180,20 @@ def rule_dsread(ctx, R):
             names = {25: 'ma:mx (x25)', 7: 'dataset line pointer (x7)', 6: 'dataset base (x6)', lit_reg: 'literal pool pointer'}
             for k in range(8):
                 names[regmap[k]] = 'r%d' % k
+            from rules import bitlin
+            obs_mp = mask | (mask << 32)        # the halves of ma:mx are only ever used under CacheLineAlignMask: the other bits are not observable
             for reg, want in sorted(exp.items()):
                 got = m.get(reg)
                 inst = '%s %s %s' % (arch, ver, names[reg])
-                if got == want:
+                verdict, how = bitlin.decide(got, want, obs_mp if reg == 25 else bitlin.ALL)
+                if verdict == 'eq':
                     R.ok(inst, where)
                     continue
-                differs = None
-                for vals in T.VALUATIONS:
-                    a_, b_ = T.term_eval(got.canon(), vals), T.term_eval(want.canon(), vals)
-                    if a_ != b_:
-                        differs = (vals, a_, b_)
-                        break
-                if differs is None:
+                if verdict == 'unknown':
                     undecided.append('%s is %s, the specification says %s; the two terms agree on every test valuation, equivalence undecided' % (inst, T.term_show(got, None), T.term_show(want, None)))
                     continue
                 nviol += 1
-                R.violation(inst, where, expected=T.term_show(want, None), found='%s after `%s`; e.g. with r%d = %#x, r%d = %#x the code gives %#x, the specification %#x' % (
-                    T.term_show(got, None), ' ; '.join(tr), vmreg[ra], differs[0][vmreg[ra]], vmreg[rb], differs[0][vmreg[rb]], differs[1], differs[2]))
+                R.violation(inst, where, expected=T.term_show(want, None), found='%s after `%s`; %s' % (T.term_show(got, None), ' ; '.join(tr), how))
             if m.stores:
                 R.violation('%s %s stores' % (arch, ver), where, expected='no store', found='%d stores' % len(m.stores))
             else:
